@@ -77,6 +77,22 @@ func TestVerifC17VcJwt(t *testing.T) {
 		source[k.KeyID()] = k.Public()
 		source[didOf(k)] = k.Public() // resolveSigningKey: an absent kid resolves the issuer DID
 	}
+	// parties whose DID is a proper textual EXTENSION of an issuer's DID (…:alice2, …:alice.attacker.net, …:alice:sub) and one
+	// whose DID is a proper PREFIX (…:ali): resolvable, with keys of their own. A kid check by prefix instead of equality
+	// would take their keys for the issuer's.
+	lookalikes := map[string][]*tokenV2.VKey{}
+	for _, k := range issuers {
+		for _, sfx := range []string{"2", ".attacker.net", ":sub", "%23x"} {
+			l := tokenV2.VNewKey("p256", k.KeyName()+sfx)
+			l.SetKid(didOf(l) + "#key-1")
+			source[l.KeyID()], source[didOf(l)] = l.Public(), l.Public()
+			lookalikes[k.KeyName()] = append(lookalikes[k.KeyName()], l)
+		}
+		l := tokenV2.VNewKey("ed", k.KeyName()[:len(k.KeyName())-2])
+		l.SetKid(didOf(l) + "#key-1")
+		source[l.KeyID()], source[didOf(l)] = l.Public(), l.Public()
+		lookalikes[k.KeyName()] = append(lookalikes[k.KeyName()], l)
+	}
 	ctrl := gomock.NewController(t)
 	mockKeyResolver := resolver.NewMockKeyResolver(ctrl)
 	mockKeyResolver.EXPECT().ResolveKeyByID(gomock.Any(), gomock.Any(), resolver.NutsSigningKeyType).DoAndReturn(
@@ -97,7 +113,19 @@ func TestVerifC17VcJwt(t *testing.T) {
 				"vc": map[string]interface{}{"@context": []string{"https://www.w3.org/2018/credentials/v1"}, "type": []string{"VerifiableCredential"},
 					"credentialSubject": map[string]interface{}{"id": "did:web:example.com:iam:holder"}}}
 			base := tokenV2.VNewBase(map[string]interface{}{"typ": "JWT", "kid": signer.KeyID()}, tokenV2.VJSON(claims), signer, issuers[(ki+1)%len(issuers)], mallory)
-			for _, v := range tokenV2.VHostile(r, base, 30) {
+			variants := tokenV2.VHostile(r, base, 30)
+			// the same credential (iss = this issuer) signed by each look-alike party with ITS key and ITS kid
+			for _, l := range lookalikes[signer.KeyName()] {
+				lb := tokenV2.VNewBase(map[string]interface{}{"typ": "JWT", "kid": signer.KeyID()}, tokenV2.VJSON(claims), signer, issuers[(ki+1)%len(issuers)], l)
+				for _, v := range tokenV2.VHostile(r, lb, 0) {
+					if v.By == "attacker" {
+						v.Name = "lookalike(" + l.KeyName() + ")-" + v.Name
+						v.Class = "lookalike-did-" + v.Class
+						variants = append(variants, v)
+					}
+				}
+			}
+			for _, v := range variants {
 				v.Name = "r" + strconv.Itoa(round) + "-" + signer.KeyName() + "-" + v.Name
 				if len(only) > 0 && !only["vcjwt|"+v.Name] {
 					continue
